@@ -697,6 +697,12 @@ func (w *daWorld) oracleBlock(pre, post daSnap, par daParams, asg daAssign, acti
 			if cnt > 0 && isActive && !pre.jailed[v] && new(big.Int).SetUint64(cnt).Cmp(th) > 0 {
 				want = append(want, v)
 			}
+			if cnt > 0 && !isActive && !pre.jailed[v] {
+				e.Stat("epoch_end.not_bonded_unjailed_with_faults")
+				if new(big.Int).SetUint64(cnt).Cmp(th) > 0 {
+					e.Stat("epoch_end.not_bonded_unjailed_above_threshold")
+				}
+			}
 		}
 		e.Oracle("slash_ref", strings.Join(want, ",") == strings.Join(slashedObs, ","), "slashed=%v want=%v threshold=%s challenges=%d", slashedObs, want, th, chalAfterTally)
 		if len(want) > 0 {
@@ -865,11 +871,16 @@ func daHistory(e *Env, zk *daZk, h int) {
 			e.Stat("setparams.directed_invalid." + cls)
 		}
 	}
+	lowered := false
 	for k := 0; k < steps; k++ {
 		// in the middle of some histories governance lowers max_validators by one: at the next staking end-block the weakest
 		// bonded validator starts UNBONDING (not jailed) with the fault counters it has collected so far; at the epoch end it
 		// is not a bonded validator any more
-		if k == steps/3+(h%3)*steps/6 && nv >= 3 && h%2 == 0 {
+		// ... as soon as the weakest validator (the one that will leave the set) has collected a fault in the current epoch, or
+		// at a fixed step otherwise
+		weakest := w.vals[0]
+		if !lowered && nv >= 3 && h%2 == 0 && ((cur.faults[weakest] > 0 && cur.bonded[weakest] && !cur.jailed[weakest]) || k == steps/3+(h%3)*steps/6) {
+			lowered = true
 			sp, _ := c.App.StakingKeeper.Params.Get(c.Ctx())
 			if sp.MaxValidators > 1 {
 				bondedNow := uint32(0)
@@ -884,6 +895,22 @@ func daHistory(e *Env, zk *daZk, h int) {
 					gov := authtypes.NewModuleAddress("gov").String()
 					_, err, p := c.Exec(&stakingtypes.MsgUpdateParams{Authority: gov, Params: sp})
 					e.Stat("midhistory.max_validators_lowered." + class(err, p))
+					if cur.faults[weakest] > 0 && err == nil && p == nil {
+						// ... and the slash threshold share becomes 0, so that the fault it has collected is above the threshold at
+						// the epoch end: the validator that has just left the bonded set must NOT be slashed
+						np := w.par
+						np.sft = new(big.Int)
+						auth, _ := c.App.AuthKeeper.AddressCodec().BytesToString(c.App.DaKeeper.GetAuthority())
+						pre := cur
+						e.In("setparams %s", np.line())
+						_, err, p := c.Exec(&datypes.MsgUpdateParams{Authority: auth, Params: np.real()})
+						cls := class(err, p)
+						if cls == "ok" {
+							w.par = np
+						}
+						w.afterMsg("setparams", cls, pre, &cur, nil)
+						e.Stat("midhistory.slash_threshold_zero." + cls)
+					}
 				}
 			}
 		}
